@@ -141,7 +141,9 @@ class ResWorld(World):
         full = per_vehicle + [k for k in [
             ("DispatchStation", "s0", "LEVEL_1"), ("ChargeStation", "s1", "DCFC"), ("ReserveBase", "b1"), ("ChargeBase", "b1", "LEVEL_2"),
             ("ChargeBase", "b0", "DCFC"), ("DispatchStation", "nope", "DCFC"), ("DispatchBase", "nope"), ("ChargeStation", "nope", "DCFC"),
-            ("ReserveBase", "nope"), ("DispatchTrip", "nope")] if k not in per_vehicle]
+            ("ReserveBase", "nope"), ("DispatchTrip", "nope"),
+            # a street that does not exist: no such link, a well-formed id of cells that are no cells, a half-valid id
+            ("Reposition", "nope"), ("Reposition", "a-b"), ("Reposition", S["A"] + "-zzz")] if k not in per_vehicle]
         self.atomic_menu = [("I", k[0], vid) + tuple(k[1:]) for vid in ("v0", "v1", "v2") for k in full] + [("I", "Idle", "ghost"), ("I", "ChargeStation", "ghost", "s0", "DCFC")]
         self.atomic_pairs = atomic_pairs
         pair_kinds = [("Idle",), ("DispatchTrip", "r0"), ("ChargeStation", "s0", "DCFC"), ("DispatchStation", "s0", "DCFC"),
